@@ -396,6 +396,8 @@ class World:
             if i.ref() is None:
                 del self.info[oid]
             elif exact:
+                if self.allowed_extra(i.ref()):
+                    continue  # e.g. the synthetic xpath root, alive for as long as the user keeps a findall generator
                 if self.on("C03"):
                     raise self.viol(
                         "C03.4 unreferenced-node-kept-alive",
